@@ -62,7 +62,7 @@ def validate_gc(traces, v):
 def lang_corpus(rnd, n):
     out = []
     for i in range(n):
-        c = i % 5
+        c = i % 8
         if c == 0:
             ast, _ = gen.program_c01(rnd)
         elif c == 1:
@@ -71,6 +71,12 @@ def lang_corpus(rnd, n):
             ast = gen.program_c03(rnd)
         elif c == 3:
             ast = gen.program_c04(rnd)
+        elif c == 4:
+            ast = gen.program_c10(rnd)       # lists growing (forwarding) through aliases while collections run
+        elif c == 5:
+            ast = gen.program_c11(rnd)       # natives with temporaries and callbacks, errors crossing natives
+        elif c == 6:
+            ast = gen.program_c18(rnd)       # errors in flight, back traces
         else:
             ast = string_program(rnd)
         out.append((f"p{i}", ast))
